@@ -1411,7 +1411,8 @@ def fd_oracle(case, obs) -> list[tuple[str, str]]:
     if kind != "returned":
         return [("raises", f"the parallel approximation raised {val!r} (sequential: {skind} {sval!r})")]
     bad = []
-    if not (skind == "returned" and val == sval):
+    same = val == sval or (case["method"] == "optstep" and repr(val) == repr(sval))  # optstep error estimates may be NaN in both
+    if not (skind == "returned" and same):
         bad.append(("differs-from-sequential", f"parallel Jacobian {val} differs from the sequential one {skind} {sval}"))
     want = fd_exact(case)
     ok = case["method"] == "optstep" or len(val) == len(want) and all(
